@@ -6,6 +6,8 @@ mod item;
 mod node;
 mod serde;
 mod serde_generate;
+#[cfg(crux_verif)]
+pub mod verif;
 
 use std::{
     collections::{BTreeMap, HashMap},
@@ -81,6 +83,8 @@ where
     previous.insert(crate_name.to_string(), shared_lib);
 
     let mut next: Vec<String> = filter.get_crates();
+    #[cfg(crux_verif)]
+    verif::reorder_crates(&mut next);
 
     while let Some(crate_name) = next.pop() {
         if previous.contains_key(&crate_name) {
@@ -91,6 +95,8 @@ where
         filter.process(&crate_name, &crate_)?;
 
         next = filter.get_crates();
+        #[cfg(crux_verif)]
+        verif::reorder_crates(&mut next);
         previous.insert(crate_name, crate_);
     }
 
@@ -100,6 +106,8 @@ where
 fn format(edges: Vec<(ItemNode, ItemNode)>) -> Registry {
     let mut formatter = Formatter::default();
     formatter.edge = edges;
+    #[cfg(crux_verif)]
+    verif::permute_edges(&mut formatter.edge);
     formatter.run();
     debug!("{}", formatter.scc_times_summary());
 
